@@ -26,7 +26,8 @@ func init() {
 	})
 }
 
-var c05Names = []string{"a", "b", "d", "d/a", "d/e", "d/e/f", "l", "x/y", "x", "d/l2"}
+// (the last three names contain pattern metacharacters: a name that comes back from the server is a name, not a pattern)
+var c05Names = []string{"a", "b", "d", "d/a", "d/e", "d/e/f", "l", "x/y", "x", "d/l2", "a[1]", "a[1]/a", "[x"}
 
 func c05Path(rng *rand.Rand) (string, int) {
 	n := c05Names[rng.IntN(len(c05Names))]
@@ -115,7 +116,7 @@ func c05Gen(class string, seed uint64, tier string) *vfScenario {
 		case "truncate":
 			op.Off = int64(rng.IntN(40))
 		case "glob":
-			op.S = []string{"*", "d/*", "?", "d/e/*", "[ab]", "*/*", "x/*", "d/[a-e]", "nomatch*", "*/"}[rng.IntN(10)]
+			op.S = []string{"*", "d/*", "?", "d/e/*", "[ab]", "*/*", "x/*", "d/[a-e]", "nomatch*", "*/", "*/a", "a*/a", "*/e/f", "?[[]1]/a", "*/y"}[rng.IntN(15)]
 		}
 		sc.Ops = append(sc.Ops, op)
 	}
